@@ -7,10 +7,8 @@
  "annotate": ["events/events_network.c"],
  "defines": ["VERIF_HALLOC", "UF=3"],
  "models": ["models/ev_poll.c", "models/ev_atexit.c", "models/ev_selectstats.c", "models/ev_warnp.c"],
- "cbmc": ["--malloc-may-fail", "--malloc-fail-null", "--unwindset", "growsocketlist.0:5,events_network_select_wrapped_for_contract_checking.0:4,events_network_get_wrapped_for_contract_checking.0:2"],
+ "cbmc": ["--malloc-may-fail", "--malloc-fail-null"],
  "loop_contracts": false,
- "bounded": true,
- "bound": "as C04/net_register, net_select, net_get (loops unwound to the size parameters; <= 2 EINTR per select)",
  "timeout": 300,
  "assumptions": ["the library's initial state (statics zero / S == NULL after the atexit handler ran): first call of each public function (UF 0: register descriptor 1, 1: cancel, 2: select, 3: get)",
                  "atexit per models/ev_atexit.c (may fail); malloc may fail"]
